@@ -193,7 +193,10 @@ fn deadlock_signature(dl: &DeadlockInfo) -> (String, String) {
     let unknown: Vec<&String> = parts.iter().filter(|p| !known.contains(p)).collect();
     let known_h = known_hold_sites();
     let unknown_h: Vec<&String> = holds.iter().filter(|p| !known_h.contains(p)).collect();
-    let sig = if !unknown.is_empty() {
+    let sig = if std::env::var("VERIF_DUMP_SITES").is_ok() {
+        // collection mode (development): everything was printed above; keep exploring instead of stopping at the first new site
+        "deadlock:all-blocked-requests-at-recorded-wait-sites".to_string()
+    } else if !unknown.is_empty() {
         format!("deadlock:new-wait-site:{}", unknown[0])
     } else if !unknown_h.is_empty() {
         format!("deadlock:new-holding-site:{}", unknown_h[0])
